@@ -194,7 +194,8 @@ func runStress(t *testing.T, thorough bool) []stressResult {
 						}
 						return 1, nil
 					})
-					if err != nil || (r != 1 && r != 2) {
+					// (on a loaded machine -- the race build is several times slower -- the 20 ms Timeout around the hedge may fire)
+					if !errors.Is(err, timeout.ErrExceeded) && (err != nil || (r != 1 && r != 2)) {
 						bad.Add(1)
 					}
 				}
